@@ -302,7 +302,7 @@ def fam_valuecall(rng, nfun=2):
     return fns, desc
 
 
-def fam_assume(rng, nfun=1, cases=None, extra=None):
+def fam_assume(rng, nfun=1, cases=None, extra=None, p_empty=0.5):
     """conditions OWNED BY ONE PATH: `switch (x1) case i: vm.assume(x0 != r_i1) ... vm.assume(lo_i < x0 && x0 < hi_i);
     assert(false)`.  vm.assume appends its condition without a feasibility check, so an empty range reaches the
     assertion solver and yields a ONE-id core; the conditions of a finished case are referenced by nothing but that
@@ -319,8 +319,10 @@ def fam_assume(rng, nfun=1, cases=None, extra=None):
         shape = []
         for i in range(K):
             lo, hi = rng.randrange(1, 1 << 32), rng.randrange(1, 1 << 32)
-            if rng.random() < 0.5:
+            if rng.random() < p_empty:
                 lo, hi = max(lo, hi), min(lo, hi)  # empty range
+            elif p_empty == 0.0:
+                lo, hi = min(lo, hi), max(lo, hi) + 2  # non-empty range
             split = rng.random() < 0.3  # two assumes (2-id core) instead of one conjunction (1-id core)
             items += [("LABEL", f"case{i}")]
             for _ in range(nx):
@@ -344,8 +346,8 @@ FAMILIES = {"tree": fam_tree, "twin": fam_twin, "chain": fam_chain, "valuecall":
 def make(family: str, seed: int, **kw):
     """-> (Spec, description list)"""
     rng = random.Random(f"c16/{family}/{seed}")
+    name = kw.pop("name", None) or f"C16_{family}_{seed}"
     fns, desc = FAMILIES[family](rng, **kw)
-    name = f"C16_{family}_{seed}"
     return e2e.Spec(name, fns=fns), desc
 
 
